@@ -128,10 +128,28 @@ func metricNonEmpty(impl Sexp) (series int, points int) {
 
 func init() {
 	props["C09"] = func(c *Ctx) {
-		c.Res.Rule = "case = 0-20 records on a 1-second lattice (equal timestamps, samples exactly on window edges, several series, unwrap values incl. unparsable ones) x range function (count, rate, bytes, bytes_rate; sum/avg/min/max/stdvar/stddev/quantile/first/last over unwrapped values with bytes/duration conversion and post-filters, optional grouping) x range in {1,2,5,10}s x offset in {0,1,2,5}s x grid (instant, or start/end/step with step <, =, > range); value compared as exact rational vs float64 within 1e-9; plus a relational check: the value at a time T is the same on two different grids containing T and as an instant query at T; non-trivial = non-empty result; distinct by request line"
+		c.Res.Rule = "case = 0-20 records on a 1-second lattice (equal timestamps, samples exactly on window edges, several series, unwrap values incl. unparsable ones) x range function (count, rate, bytes, bytes_rate; sum/avg/min/max/stdvar/stddev/quantile/first/last over unwrapped values with bytes/duration conversion and post-filters, optional grouping) x range in {1,2,5,10}s x offset in {0,1,2,5}s x grid (instant, or start/end/step with step <, =, > range); an eighth of the cases: a dense series of unordered unwrapped values under overlapping windows (range 3-10 s, step 1 s); value compared as exact rational vs float64 within 1e-9; plus a relational check: the value at a time T is the same on two different grids containing T and as an instant query at T; non-trivial = non-empty result; distinct by request line"
 		gen := func(r *rand.Rand) MetricCase {
 			t := MetricCase{E: *genRangeExpr(r, false), Recs: genMRecs(r, r.Intn(21)), Repeat: 2}
 			genParams(r, &t)
+			if r.Intn(8) == 0 {
+				// overlapping windows over a dense series of unwrapped values in no particular order: each
+				// window shares most of its samples with the previous one, so whatever an operation does to
+				// the window it was given (sorting it, say) meets the next step
+				e := genRangeExpr(r, true)
+				e.Op, e.Unwrap, e.Sel, e.OffsetS = pick(r, mRangeOpsUnwrap), &MUnwrap{Label: "v"}, nil, 0
+				e.RangeS = pick(r, []int64{3, 5, 10})
+				if e.Op == "quantile_over_time" {
+					e.Param = pick(r, []string{"0.5", "0.25", "0.9"})
+				}
+				t.E = *e
+				n := 6 + r.Intn(8)
+				t.Recs = make([]LRec, n)
+				for i := range t.Recs {
+					t.Recs[i] = LRec{TS: (mT0 + int64(i)) * 1e9, Body: "x", Attrs: [][2]string{{"v", fmt.Sprint(pick(r, []int{5, 1, 3, 2, 4, 9, 7, 0, 8, 6}))}}}
+				}
+				t.Start, t.End, t.Step = (mT0+2)*1e9, (mT0+int64(n)+1)*1e9, 1e9
+			}
 			return t
 		}
 		spec := &Spec[MetricCase]{
